@@ -763,6 +763,9 @@ func (in *Interp) callBound(fn *ssa.Function, args []Value, bindings []Value, gu
 				loopOf[b] = ls
 				for _, cl := range in.LoopCarried[ls.ID] {
 					k := cl.Key
+					if _, dup := ls.CarriedInit[k]; dup {
+						continue
+					}
 					root, path := SplitKey(k)
 					bv, isBV := in.Load(cur, &Ptr{Root: root, Path: path, Nil: bdd.False}, cl.Type, 0).(dom.BV)
 					if !isBV {
